@@ -253,6 +253,9 @@ fn check(args: &[String]) -> i32 {
                 for k in ["compared", "unsupported_by_icu", "fault_panics_allowed", "ok_after_fault", "constructions", "choice_points_with_alternatives"] {
                     *probes.entry(k.to_string()).or_default() += st[k].as_u64().unwrap_or(0);
                 }
+                for (r, k) in st["routes"].as_object().cloned().unwrap_or_default() {
+                    *probes.entry(format!("ops_via_{r}")).or_default() += k.as_u64().unwrap_or(0);
+                }
                 *probes.entry(format!("runs_with_{}_threads", st["threads"])).or_default() += 1;
                 *probes.entry(format!("policy_{}", st["policy"].as_str().unwrap_or(""))).or_default() += 1;
                 if st["faults_fired"].as_u64().unwrap_or(0) > 0 {
@@ -318,7 +321,7 @@ fn check(args: &[String]) -> i32 {
     ev.level = "exploration".into();
     ev.evaluations = evaluations;
     ev.distinct_nontrivial = nontrivial.len() as u64;
-    ev.rule = "a run = seeded plan: 1-60 formatting operations (fixture keys through td_string!/td!, td_format_string! call sites, plural keys) over 6 locales x 86 formatter texts (the complete documented option matrix incl. omitted/unknown/whitespace variants), split over 1-4 caller threads, a scheduler policy (random / PCT / round-robin / lowest) deciding which parked thread proceeds at every hook point around the cache lock, and (fault batch) 1-3 provider failures placed at the n-th construction. Every operation's output is compared with a stateless ICU4X formatter built from the documented options. A run is non-trivial when operations compete for cache slots (same slot twice), several threads are live, or a fault fired; distinct = distinct plan.".into();
+    ev.rule = "a run = seeded plan: 1-60 formatting operations (fixture keys through td_string!/td!/td_display! with FixedDecimal, f64, f32 and every integer type, td_format_string! call sites, t_format!/tu_format! families and t_plural!/tu_plural! on a context whose locale changes, plural keys, td_plural!) over 8 locales (incl. pt / pt-PT, RTL ar) x 92 formatter texts (the complete documented option matrix incl. omitted/unknown/whitespace variants), split over 1-4 caller threads, a scheduler policy (random / PCT / round-robin / lowest) deciding which parked thread proceeds at every hook point around the cache lock, and (fault batch) 1-3 provider failures placed at the n-th construction. Every operation's output is compared with a stateless ICU4X formatter built from the documented options. A run is non-trivial when operations compete for cache slots (same slot twice), several threads are live, or a fault fired; distinct = distinct plan.".into();
     ev.samples = samples;
     ev.faults_fired = faults_fired;
     ev.probes = probes;
